@@ -14,21 +14,25 @@ Scaled == Kinds \ {"txt", "ans"}
 ScaleCs == {"default", "two", "zero", "negative", "half", "one_and_half"}
 BorderCs == {"default", "zero", "three", "negative", "fraction"}
 ColourCs == {"default", "name", "hex3", "hex6", "tuple", "hex2", "hex5", "hex_bad_digit", "unknown_name", "tuple2", "tuple_256", "tuple_negative",
-             "alpha_2", "empty", "hex_sign", "hex_space", "hex_minus", "hex_underscore", "hex_0x", "tuple5", "tuple6", "tuple0", "tuple1", "alpha_256", "alpha_neg"}
+             "alpha_2", "empty", "hex_sign", "hex_space", "hex_minus", "hex_underscore", "hex_0x", "tuple5", "tuple6", "tuple0", "tuple1", "alpha_256", "alpha_neg", "alpha_255f"}
 KindCs == {"known", "known_upper", "unknown", "empty"}
 MalformedColour == {"hex2", "hex5", "hex_bad_digit", "unknown_name", "tuple2", "tuple_256", "tuple_negative", "alpha_2", "empty",
-                    "hex_sign", "hex_space", "hex_minus", "hex_underscore", "hex_0x", "tuple5", "tuple6", "tuple0", "tuple1", "alpha_256", "alpha_neg"}
+                    "hex_sign", "hex_space", "hex_minus", "hex_underscore", "hex_0x", "tuple5", "tuple6", "tuple0", "tuple1", "alpha_256", "alpha_neg", "alpha_255f"}
+\* malformed colours for which a VALID colour exists that compares equal in Python: (0, 0, 0, 2.0) = (0, 0, 0, 2), (0, 0, 0, 255.0) = (0, 0, 0, 255).
+\* prior = "twin": that valid colour has been serialised by the same process just before -- the outcome does not depend on it
+HasValidTwin == {"alpha_2", "alpha_255f"}
 
 VARIABLES pc, a, refusals
 vars == <<pc, a, refusals>>
 Init == pc = "pick" /\ a = [family |-> "none"] /\ refusals = {}
 PickSave ==
   /\ pc = "pick" /\ pc' = "check"
-  /\ \E k \in Kinds : \E s \in ScaleCs : \E b \in BorderCs : \E c \in ColourCs : \E w \in {"dark", "light"} : \E kc \in KindCs :
+  /\ \E k \in Kinds : \E s \in ScaleCs : \E b \in BorderCs : \E c \in ColourCs : \E w \in {"dark", "light"} : \E kc \in KindCs : \E pr \in {"none", "twin"} :
+       /\ (pr = "twin" => c \in HasValidTwin)
        /\ (s # "default" => k \in Scaled)
        /\ (c # "default" => k \in Coloured)
        /\ Cardinality({x \in {s, b, c} : x # "default"} \cup (IF kc \notin {"known"} THEN {"kind"} ELSE {})) <= 1      \* one deviation at a time
-       /\ a' = [family |-> "save", kind |-> k, scale |-> s, border |-> b, colour |-> c, which |-> w, kindc |-> kc]
+       /\ a' = [family |-> "save", kind |-> k, scale |-> s, border |-> b, colour |-> c, which |-> w, kindc |-> kc, prior |-> pr]
   /\ UNCHANGED refusals
 \* command line: classes of invocations
 CliCs == {"ok_file", "ok_terminal", "ok_lower_micro_version", "ok_upper_micro_version", "ok_micro_flag", "ok_lower_error", "ok_mode_upper", "bad_version", "H_with_micro_version", "overflow_version_1", "numeric_mode_for_text", "pattern_9",
